@@ -251,7 +251,10 @@ fn fen_parser(input: &str) -> IResult<&str, Game> {
 
 #[inline(always)]
 fn plies_from_fullmove_number(fullmove_number: u32, player: Player) -> u32 {
-    (fullmove_number - 1) * 2 + u32::from(player == Player::Black)
+    fullmove_number
+        .saturating_sub(1)
+        .saturating_mul(2)
+        .saturating_add(u32::from(player == Player::Black))
 }
 
 pub fn parse(input: &str) -> Result<Game, String> {
